@@ -37,6 +37,8 @@ const (
 	tgToolIn
 	tgPlatform
 	tgMoveInput
+	tgAppCmdComment
+	tgGenExtra
 	numToggles
 )
 
@@ -44,7 +46,7 @@ var toggleNames = []string{
 	"append-byte-to-f1", "shift-byte-f1-end-to-f2-start", "add-file-under-glob", "rename-file-under-glob",
 	"lib-command-comment-only", "lib-command-changes-output", "lib-declare-extra-output",
 	"lib-fingerprint-value", "lib-fingerprint-move-equals-sign", "app-alias-edge-to-direct-edge",
-	"edit-app-input", "edit-tool-input", "switch-platform", "move-gen-input-to-other-declared-name",
+	"edit-app-input", "edit-tool-input", "switch-platform", "move-gen-input-to-other-declared-name", "app-command-comment-only", "gen-declares-output-with-same-bytes-as-lib-extra",
 }
 
 type wsState struct {
@@ -153,8 +155,11 @@ echo "end $GROG_TARGET" >> "$VTRACE"`
 	if w.T[tgDirectEdge] {
 		appDep = "//a:lib"
 	}
-	appCmd := traceStart + `
-rm -rf dist
+	appCmd := traceStart + "\n"
+	if w.T[tgAppCmdComment] {
+		appCmd += "# a comment: app re-executes but reproduces the identical directory tree\n"
+	}
+	appCmd += `rm -rf dist
 mkdir -p dist/empty dist/sub
 printf 'app[%s|%s]' "$(cat app.in)" "$(cat "$(output //a:lib 0)")" > dist/app.txt
 printf '#!/bin/sh\necho run\n' > dist/sub/run.sh
@@ -187,8 +192,13 @@ echo "end $GROG_TARGET" >> "$VTRACE"`
 a="$(cat gen.in 2>/dev/null || echo none)"
 b="$(cat gen2.in 2>/dev/null || echo none)"
 printf 'gen[%s|%s|%s]' "$a" "$b" "$($(bin :tool))" > gen.txt
+printf 'extra' > gen.extra
 echo "end $GROG_TARGET" >> "$VTRACE"`
-	s.Targets = append(s.Targets, hist.Target{Pkg: "b", Name: "gen", Command: genCmd, Inputs: []string{"gen.in", "gen2.in"}, Outputs: []string{"gen.txt"}, Deps: []string{":tool"}})
+	gen := hist.Target{Pkg: "b", Name: "gen", Command: genCmd, Inputs: []string{"gen.in", "gen2.in"}, Outputs: []string{"gen.txt"}, Deps: []string{":tool"}}
+	if w.T[tgGenExtra] {
+		gen.Outputs = append(gen.Outputs, "gen.extra") // same bytes (same digest) as //a:lib's extra.txt
+	}
+	s.Targets = append(s.Targets, gen)
 	return s
 }
 
